@@ -147,6 +147,14 @@ class Emit:
                         as_.append(sa)
                     return "(AD.%s %s%s)" % (name, s, "".join(" " + a for a in as_)), "AD"
                 raise Unsupported("AD method " + name)
+            if t == "dyn" and name in ("f", "df") and len(args) == 1:
+                a, ta = self.e(args[0])
+                if ta == "f":
+                    return "(dyn_%s %s)" % (name, a), "f"
+            if t == "dyn" and name == "fdf" and len(args) == 1:
+                a, ta = self.e(args[0])
+                if ta == "f":
+                    return "(D1.fdfDefault dyn_f dyn_df %s)" % a, "pf"
             if t in ("fnADAD", "dyn") and name in ("f", "df", "fdf", "composition"):
                 raise Unsupported("trait call inside body")
             raise Unsupported("method %s on %s" % (name, t))
@@ -182,7 +190,7 @@ class Emit:
         raise Unsupported("node " + k)
 
 
-LEAN_TY = {"f": "α", "AD": "AD α", "int": "Int", "pf": "α × α", "pAD": "AD α × AD α",
+LEAN_TY = {"dyn": None, "f": "α", "AD": "AD α", "int": "Int", "pf": "α × α", "pAD": "AD α × AD α",
            "fnADAD": "AD α → AD α", "fnpADpAD": "AD α × AD α → AD α × AD α"}
 
 
@@ -192,7 +200,7 @@ def lean_def(name, params, ret, body_src):
     s, t = em.e(ast, expect=ret)
     if t != ret:
         raise Unsupported("returns %s, expected %s" % (t, ret))
-    ps = " ".join("(%s : %s)" % (n.replace("self", "self_"), LEAN_TY[ty]) for n, ty in params)
+    ps = " ".join("(dyn_f : α → α) (dyn_df : α → α)" if ty == "dyn" else "(%s : %s)" % (n.replace("self", "self_"), LEAN_TY[ty]) for n, ty in params)
     return "def %s {α : Type} [Num α] %s : %s :=\n  %s\n" % (name, ps, LEAN_TY[ret], s)
 
 
@@ -249,6 +257,9 @@ def main():
     # Differentiable1D: trait defaults and the closure impl
     tblk = block_of(dsrc, r"pub\s+trait\s+Differentiable1D\s*\{")
     cblk = block_of(dsrc, r"impl<F:\s*Fn\(AD\)\s*->\s*AD>\s*Differentiable1D\s+for\s+F\s*\{")
+    # trait defaults (used by implementors that only provide f and df)
+    items.append(("D1.fdfDefault", tblk, r"fn\s+fdf\s*\(", [("self", "dyn"), ("x", "f")], "pf"))
+    items.append(("D1.compositionDefault", tblk, r"fn\s+composition\s*\(", [("self", "dyn"), ("gdg", "pf")], "pf"))
     items.append(("D1.f", cblk, r"fn\s+f\s*\(", [("self", "fnADAD"), ("x", "f")], "f"))
     items.append(("D1.df", cblk, r"fn\s+df\s*\(", [("self", "fnADAD"), ("x", "f")], "f"))
     items.append(("D1.fdf", cblk, r"fn\s+fdf\s*\(", [("self", "fnADAD"), ("x", "f")], "pf"))
